@@ -203,6 +203,16 @@ func ReuseWAL(cfg *config.Config, dir string, nextSeq uint64) (*WAL, error) {
 		return nil, nil
 	}
 
+	// Never append behind a damaged record (e.g. the cut tail a crash leaves):
+	// replay stops at the damage, so records written after it would be lost
+	if !readsCleanlyToEnd(latestWAL) {
+		file.Close()
+		if !DisableRecoveryLogs {
+			fmt.Printf("Latest WAL file has a damaged tail, starting a new one\n")
+		}
+		return nil, nil
+	}
+
 	if !DisableRecoveryLogs {
 		fmt.Printf("Reusing existing WAL file: %s with next sequence %d\n",
 			latestWAL, nextSeq)
@@ -221,6 +231,21 @@ func ReuseWAL(cfg *config.Config, dir string, nextSeq uint64) (*WAL, error) {
 	}
 
 	return wal, nil
+}
+
+// readsCleanlyToEnd reports whether every record of a WAL file can be read
+func readsCleanlyToEnd(path string) bool {
+	reader, err := OpenReader(path)
+	if err != nil {
+		return false
+	}
+	defer reader.Close()
+
+	for {
+		if _, err := reader.ReadEntry(); err != nil {
+			return err == io.EOF
+		}
+	}
 }
 
 // Append adds an entry to the WAL
